@@ -4,7 +4,7 @@
    reactivex/subject/subject.py by the K1 correspondence of harness/props/C20.py.
    Abstract specification ([spec], [oview], [greet]): Subjects/Family.v. *)
 From RxVerif Require Import Base.Prelude Ops.Machine Subjects.Subject Subjects.Family
-  Subjects.SubjectFacts Subjects.FamilyFacts.
+  Subjects.SubjectFacts Subjects.FamilyFacts Subjects.SubjectTreeFacts.
 
 (* Refinement.  For EVERY history of top-level calls (subscribe, unsubscribe,
    on_next, on_error, on_completed, dispose in any order, ids reused, calls after
@@ -138,6 +138,49 @@ Theorem C20_live_wrapper_delivers :
 Proof. exact (fun A react s => deliver_reaches_live (value s) KSubject react s). Qed.
 Print Assumptions C20_live_wrapper_delivers.
 
+(* ---- WHO RECEIVES WHICH VALUES, on every call tree (Subjects/SubjectTreeFacts.v) ----
+   [entitled o log] = the values v of the on_next(v) calls of the log made AFTER o's subscribe call
+   and BEFORE any on_error / on_completed / dispose call -- made by the driver or from inside any
+   callback: the emissions made while o was subscribed to the live subject.  [vals] keeps the
+   values of the on_next notifications of a view; [pendn o k] are the values the machine is about
+   to hand to o's wrapper.
+   At every moment of every run, for every observer:  received ++ about to be delivered ++ dropped
+   is a PERMUTATION of the entitlement, and nothing was dropped unless o's wrapper is stopped (o
+   unsubscribed or got a terminal notification).  Order is deliberately not claimed: on call
+   trees deliveries are depth first (an emission made inside a callback reaches the later
+   observers of the snapshot before the emission it interrupted: C20_witness_tree_order). *)
+Theorem C20_tree_values_are_the_emissions_while_subscribed :
+  forall (A : Type) (react : nat -> nat -> list (@op A)) (v0 : A) (top : list (@op A)) (fuel o : nat),
+    let c := run subject_cls react fuel (init_cfg v0 top) in
+    exists dropped,
+      Permutation.Permutation (vals (view o (log_of c)) ++ pendn o (c_k c) ++ dropped) (entitled o (log_of c)) /\
+      (forall os, c_obs c o = Some os -> a_stopped os = false -> dropped = []).
+Proof. exact (@subject_tree_values). Qed.
+Print Assumptions C20_tree_values_are_the_emissions_while_subscribed.
+
+(* when the run has finished, an observer whose wrapper is still live (subscribed, never
+   unsubscribed, no terminal notification) has received EXACTLY, as a multiset, the values emitted
+   while it was subscribed: every such emission reached it, each once *)
+Theorem C20_tree_live_observer_received_every_emission :
+  forall (A : Type) (react : nat -> nat -> list (@op A)) (v0 : A) (top : list (@op A)) (fuel o : nat) os,
+    let c := run subject_cls react fuel (init_cfg v0 top) in
+    c_k c = [] -> c_obs c o = Some os -> a_stopped os = false ->
+    Permutation.Permutation (vals (view o (log_of c))) (entitled o (log_of c)).
+Proof. exact (@subject_tree_finished). Qed.
+Print Assumptions C20_tree_live_observer_received_every_emission.
+
+(* the snapshot rule, soundness: a value delivered to o was the argument of an on_next call made
+   AFTER o's subscribe call and before any terminating call -- never to an observer that
+   subscribed later, not even from inside a callback of that very emission *)
+Theorem C20_tree_delivery_was_subscribed_before_the_call :
+  forall (A : Type) (react : nat -> nat -> list (@op A)) (v0 : A) (top : list (@op A)) (fuel o : nat) (v : A),
+    let c := run subject_cls react fuel (init_cfg v0 top) in
+    In (Next v) (view o (log_of c)) ->
+    exists p1 p2 p3, log_of c = p1 ++ EOp (OSub o) :: p2 ++ EOp (ONext v) :: p3 /\
+                     existsb end_ev (p1 ++ EOp (OSub o) :: p2) = false.
+Proof. exact (@subject_tree_delivery_was_subscribed_before_the_call). Qed.
+Print Assumptions C20_tree_delivery_was_subscribed_before_the_call.
+
 (* ---- non-vacuity / witnesses (values are pool ids: 0 = None, 1 = 0, 2 = False) ---- *)
 
 (* late subscriber after an error gets only the error; a third one after dispose gets DisposedException *)
@@ -170,3 +213,20 @@ Example C20_witness_unsub_hyp :
              (init_cfg 0 [OSub 0%nat; ONext 5; ONext 6]) in
   exists os k, c_k c = IOp (OUnsub 0%nat) :: k /\ c_obs c 0%nat = Some os /\ handle os = true.
 Proof. vm_compute. do 2 eexists. split; [reflexivity|split; reflexivity]. Qed.
+
+(* trees: observer 0 emits 6 from inside its callback for 5: observer 1 receives 6 BEFORE 5
+   (depth first), a permutation of its entitlement [5; 6]; the run is finished and 1's wrapper live *)
+Example C20_witness_tree_order :
+  let c := run subject_cls (react_tbl [(0%nat, [[ONext 6]])]) 100 (init_cfg 0 [OSub 0%nat; OSub 1%nat; ONext 5]) in
+  c_k c = [] /\ (exists os, c_obs c 1%nat = Some os /\ a_stopped os = false) /\
+  vals (view 1%nat (log_of c)) = [6; 5] /\ entitled 1%nat (log_of c) = [5; 6].
+Proof. vm_compute. split; [reflexivity|]. split; [eexists; split; reflexivity|split; reflexivity]. Qed.
+
+(* trees: a value is DROPPED only for a stopped wrapper -- observer 0 unsubscribes observer 1 from
+   inside its callback for 5; 1 was entitled to 5 (subscribed when the call was made) and does not
+   get it *)
+Example C20_witness_tree_dropped :
+  let c := run subject_cls (react_tbl [(0%nat, [[OUnsub 1%nat]])]) 100 (init_cfg 0 [OSub 0%nat; OSub 1%nat; ONext 5]) in
+  c_k c = [] /\ (exists os, c_obs c 1%nat = Some os /\ a_stopped os = true) /\
+  vals (view 1%nat (log_of c)) = [] /\ entitled 1%nat (log_of c) = [5].
+Proof. vm_compute. split; [reflexivity|]. split; [eexists; split; reflexivity|split; reflexivity]. Qed.
